@@ -1657,7 +1657,7 @@ func gen(c *core.Ctx) error {
 	c.Rule("A: validateFSAuthPath/fsAddrLeaf/verifyFSPathEndpoint and filepath.Clean/Dir/Base, net.ParseIP on a catalogue of recognised and near-miss leaves x parents x joiners x peers, exhaustive sequences of <=4 components from {'', '.', '..', tmp, FS_1}, every byte value inside a name, over-long fields and random mutations of accepted paths; compared with the Gallina model and judged by an independent restatement of the accepted shapes. B: the whole real client exchange against a raw-wire scripted server (9 ways to deliver the path x 12 ways to continue/end) for 81 path scenarios (13 with live endpoints of type *net.TCPAddr or string-typed and port fields equal only modulo 2^16 / with leading zeros / IPv4-mapped forms, 13 with TMPDIR set, relative, empty or unset in the client environment, 17 of them with a declared stream peer address, Stream.SetPeerAddr, that differs from / equals / is not an address / is empty, against names of the live, the declared-only or neither endpoint), with filesystem snapshots (token-named entries of /tmp, a sandbox tree, extra targets) before / at reply / after. C: the real server against 22 kinds of object left at its path. non-trivial = accepted path, exchange that created a directory, accepted server verification")
 	c.Assume("kernel path resolution of os.Root (openat2/RESOLVE_BENEATH) and the absence of concurrent symlink swaps under /tmp are assumed, not checked")
 	c.Assume("the harness runs as root: a directory owned by another user is produced by chown; a client that is a different unprivileged user is not exercised")
-	c.Assume("os.OpenRoot(/tmp) failing is modelled but cannot be provoked on the shared /tmp")
+	c.Assume("os.OpenRoot(/tmp) failing is provoked only through file-descriptor exhaustion (EMFILE); a missing or unreadable /tmp is not exercised")
 	c.Assume("PutInt failing (as opposed to FinishMessage failing) cannot be provoked over the wire: PutInt only buffers")
 	restore := quietStdout()
 	defer restore()
